@@ -20,6 +20,7 @@ QUICK = [
     ("S6", DROP_ASC, 1, "IDS"),
     ("S2", DROP_ASC, 2, "COPYONLY"),
     ("S4", HOLD_DESC, 1, "IDS"),
+    ("S1", DROP_ASC, 2, "PGDECL"),
 ]
 THOROUGH = [
     ("S1", DROP_ASC, 3, "IDS"),
@@ -33,6 +34,8 @@ THOROUGH = [
     ("S6", HOLD_DESC, 2, "IDS"),
     ("S2", DROP_ASC, 3, "COPYONLY"),
     ("S4", HOLD_DESC, 2, "COPYONLY"),
+    ("S1", DROP_ASC, 3, "PGDECL"),
+    ("S2", HOLD_DESC, 2, "PGDECL"),
 ]
 
 P = TreeProp(
